@@ -475,6 +475,19 @@ def rule_model_tracks_extension(ctx):
     r.floor(n, 1, "places where the computer adopts the set of a SAT answer")
 
 
+def _starts_search(prog, t, depth=0):
+    """the function (or a private helper it calls) creates a SAT solver with the factory: it starts a search of its own"""
+    from ..core import self_fields_read
+
+    for y in prog.with_closures(t):
+        for s in y.calls():
+            c = callee_of(s)
+            if c is not None and (callee_matches(c, r"ops::function::Fn::call$") or c.get("decl") == "<indirect>") and s.node["args"]:
+                if "solver_factory" in self_fields_read(y, s.node["args"][0]) or any("SatSolver" in y.local_ty(s.node["dst"]["l"]) for _ in [0]):
+                    return True
+    return False
+
+
 def rule_single_computation(ctx):
     prog = ctx.prog
     r = ctx.rule(
@@ -500,6 +513,16 @@ def rule_single_computation(ctx):
                 for s, t in prog.callees(bb, include_closures=False, virtual_dispatch=False):
                     if t.id in ids and t.id != b.id:
                         sites.append((bb, s, t))
+            # helpers of the solver that start a SAT search of their own (they call the solver factory): two of them on one path, outside
+            # the per-component loops, examine the candidate sets twice on fresh solvers
+            searches = []
+            for s, t in prog.callees(b, include_closures=False, virtual_dispatch=False):
+                if t.kind != "closure" and t.impl and t.impl.get("self_adt") == adt_path and not t.impl.get("trait") and t.id not in ids and _starts_search(prog, t) and not b.in_loop(s.bb):
+                    searches.append((s, t))
+            for i, (s1, t1) in enumerate(searches):
+                for s2, t2 in searches[i + 1 :]:
+                    if s1.bb != s2.bb and (b.reaches(s1.bb, s2.bb) or b.reaches(s2.bb, s1.bb)):
+                        r.violation(b.id, "search-started-twice", "the query starts two SAT searches on one path (%s at %s and %s at %s), each on a fresh solver: what the first one excluded is examined again by the second" % (t1.path.rsplit("::", 1)[-1], s1.loc(), t2.path.rsplit("::", 1)[-1], s2.loc()), s2.loc())
             if not sites:
                 continue
             n_deleg += 1
@@ -723,3 +746,32 @@ def rule_state_machine(ctx):
                         want = "Maximal" if enlarging else "None"
                         r.check(v == want, anchor + "|unsat", "state-after-unsat:%s" % v, "unsatisfiable => %s" % want, "after an unsatisfiable %s the computer reports %s instead of %s" % ("attempt to enlarge the current set" if enlarging else "fresh search", v, want), st_site.loc())
     r.floor(n, 2, "SAT calls of the maximal-extension computer with a state transition")
+
+
+def rule_query_scoped_decomposition(ctx):
+    prog = ctx.prog
+    r = ctx.rule(
+        "search-on-the-components-of-the-query",
+        "an acceptance query searches the connected components of its *listed* arguments only: what is handed to "
+        "`merged_connected_components_of` is the query list (mapped to arguments), nothing larger - the stated SAT-call bounds are per "
+        "component, and a search over the whole framework multiplies the candidate sets of all components",
+    )
+    n = 0
+    for b in sorted(prog.lib_bodies(), key=lambda x: x.id):
+        fn = prog.enclosing_fn(b)
+        if not (fn.path.startswith("solvers::") or "<solvers::" in fn.path.split(" as ")[0]):
+            continue
+        lp = tags_list_params(fn) if b is fn else set()
+        for s in b.calls():
+            if not callee_matches(callee_of(s), r"ConnectedComponentsComputer::merged_connected_components_of$"):
+                continue
+            n += 1
+            lk = tags.list_kind(prog, b, s.node["args"][1], lp) if lp else None
+            if lk is None:
+                r.ok("%s|merge" % b.id, "NOT decided: the function has no query-list parameter", s.loc())
+                continue
+            # what else feeds the merged list: the framework's whole argument set?
+            _, calls, _ = data_deps(b, s.node["args"][1])
+            whole = any(callee_matches(callee_of(c), r"ArgumentSet::iter$|AAFramework::argument_set$") and not any(callee_matches(callee_of(c2), r"ArgumentSet::get_argument$") for c2 in calls) for c in calls)
+            r.check(lk in ("FULL", "PARTIAL") and not whole, "%s|merge" % b.id, "merged-list:%s%s" % (lk, "+whole-set" if whole else ""), "the merged components are those of the listed arguments", "the search runs on the merged components of %s, not of the listed arguments only" % ("every argument of the framework" if whole else "something that is not the query list"), s.loc())
+    r.floor(n, 3, "calls of merged_connected_components_of in the solvers")
